@@ -169,6 +169,11 @@ def fixed_corpus():
             (e2, 'vector', C.dot(C.grad(F2), G2), 'corpus:dot(grad F,G) 2d'),
             (e2, 'scalar', C.inner(C.grad(F2), C.grad(G2)), 'corpus:inner(grad,grad) 2d')]
     # finding C01-function-argument-not-lowered (fixed): elementary functions lower their arguments
+    # a scalar factor that vanishes only once lowered, times a vector: the value is the zero VECTOR and a
+    # sum with it must still lower (seeded change C01-5 returned the scalar 0)
+    out += [(e2, 'vector', C.div(C.rot(h2)) * F2 + G2, 'corpus:div(rot(h))*F+G'),
+            (e2, 'vector', C.laplace(e2.coords[0]) * F2 + h2 * G2, 'corpus:laplace(x)*F+h*G'),
+            (e2, 'vector', C.div(C.rot(h2)) * F2, 'corpus:div(rot(h))*F')]
     out += [(e2, 'scalar', sympy.sin(C.div(F2)), 'corpus:sin(div F)'),
             (e2, 'scalar', h2 * sympy.exp(C.dot(C.grad(h2), C.grad(h2))), 'corpus:h*exp(|grad h|^2)'),
             (e3, 'vector', sympy.cos(C.div(F)) * C.curl(G), 'corpus:cos(div F)*curl(G)')]
